@@ -357,8 +357,13 @@ theorem predict_meets_spec (p : Plan) (hwf : p.WF) (hc : p.ctxEnds = true) : spe
     | true => exact absurd hok (certain_fault_never_ok p hwf h _ hr)
   unfold specF
   simp only [Bool.and_eq_true]
-  refine ⟨⟨⟨⟨⟨?_, ?_⟩, ?_⟩, ?_⟩, ?_⟩, ?_⟩
+  refine ⟨⟨⟨⟨⟨⟨?_, ?_⟩, ?_⟩, ?_⟩, ?_⟩, ?_⟩, ?_⟩
   · simp [predict, obsOf]
+  · simp only [predict, obsOf, Bool.or_eq_true, beq_iff_eq]
+    by_cases he : (predictSt p).entered = true
+    · right
+      simp only [he, if_true, deadlineKind, specDeadlineKind, Plan.eff, effDeadline_is_spec]
+    · left; simp [he]
   · simp only [predict, obsOf, decide_eq_true_eq, beq_iff_eq]
     intro h; simp [hok h]
   · simp only [predict, obsOf, List.all_eq_true, List.mem_map, decide_eq_true_eq]
